@@ -86,7 +86,8 @@ def main():
                     csv.writer(buf, lineterminator='\n').writerow([text(cell, cmi) for cell in c_[2]])
                     if buf.getvalue() != ln:
                         raise E.MachineryError(f'spec CSV rendering {ln!r} differs from csv.writer {buf.getvalue()!r}')
-                jobs.append({'op': 'parse_lines', 'data_source': rng.choice(['csv-raw', 'ob-csv']), 'lines': lines})
+                # the ranking task passes ',' for the CSV sources, the instance-ranking task passes its hard-coded tab: CSV lines are comma-separated for both
+                jobs.append({'op': 'parse_lines', 'data_source': rng.choice(['csv-raw', 'ob-csv']), 'lines': lines, 'delimiter': rng.choice([',', ',', '\t'])})
             elif fmt == 'tsv':
                 jobs.append({'op': 'parse_lines', 'data_source': 'ob-raw-dump', 'delimiter': '\t', 'lines': lines})
             else:
